@@ -94,7 +94,7 @@ void child_exit(int code) {
 
 // ------------------------------------------------------------------ symbols
 static std::vector<Sym> g_syms;  // sorted by addr (module offsets)
-static std::unordered_set<std::string> g_libfuncs;
+static std::unordered_set<std::string> g_libfuncs, g_atomic_funcs;
 static uintptr_t g_base = 0, g_img_lo = 0, g_img_hi = 0;
 
 static int phdr_cb(struct dl_phdr_info* info, size_t, void*) {
@@ -144,6 +144,17 @@ void symbols_load(const char* exe_sym_path, const char* bdir) {
       }
     }
     fclose(f);
+  }
+  {
+    FILE* g = fopen((std::string(bdir) + "/atomic_funcs.txt").c_str(), "r");
+    if (g) {
+      while (fgets(line, sizeof line, g)) {
+        char* e = strchr(line, '\n');
+        if (e) *e = 0;
+        if (line[0]) g_atomic_funcs.insert(line);
+      }
+      fclose(g);
+    }
   }
   // table set: every data symbol of the generated table file, the catalogue arrays named by the
   // internal headers, the name tables of xrayvars.c; minus the crystal collection.
@@ -198,6 +209,7 @@ const Sym* sym_lookup_off(uintptr_t off) {
 }
 const Sym* sym_lookup(uintptr_t pc) { return (pc >= g_base) ? sym_lookup_off(pc - g_base) : nullptr; }
 bool sym_is_libfunc(const std::string& n) { return g_libfuncs.count(n) != 0; }
+bool sym_is_atomic_func(const std::string& n) { return g_atomic_funcs.count(n) != 0; }
 std::string site_of_pc(uintptr_t pc) {
   if (pc < g_img_lo || pc >= g_img_hi) return "?";
   const Sym* s = sym_lookup(pc);
